@@ -7,12 +7,79 @@ from ..interp import Adt, Cell, Inconclusive, Interp, Panic, Policy, Ptr, Tok
 from ..models import Formatter
 from ..report import path_sig
 
-DESUGAR_OWNERS = re.compile(r"^range::(primitive|partial|tilde|caret)::\{closure#\d+\}$|^range::hyphen::parser$")
 FROM_SIGNED = re.compile(r"^<Version as std::convert::From<\((i8|i16|i32|i64|isize)(, \1){2,3}\)>>::from$")
 
 
 def site_key(s):
     return "%s|%s|%s" % (s["owner"], s["kind"], re.sub(r"_\d+", "_", s["detail"]))
+
+
+class Family(object):
+    """a set of root functions whose inputs a table enumerates exhaustively (under the stated invariant), with the
+    bodies the table's interpretations entered / had answered by stubs. verdict: True = no row reaches a panic,
+    False = some row does (reported), None = inconclusive (reported)."""
+
+    def __init__(self, name, rule, why, roots, verdict, cov=(), kinds=None, why_bad=None):
+        self.name, self.rule, self.why, self.roots, self.verdict = name, rule, why, set(roots), verdict
+        self.entered, self.stubbed = set(), set()
+        self.kinds = kinds
+        self.why_bad = why_bad
+        for c in cov:
+            self.add_cov(c)
+
+    def add_cov(self, c):
+        self.entered.update(c["calls"])
+        self.stubbed.update(c["stubbed"])
+
+
+def family_membership(prog, families):
+    """fam_of[g] = families whose tables cover every call of g: roots, and (recursively) private functions all of
+    whose crate callers are covered by families that did not stub g. A function nobody calls is covered (dead)
+    unless it is public API."""
+    _, graph = flow.call_graph_cycles(prog)
+    callers = {k: set() for k in prog.bodies}
+    for k, cs in graph.items():
+        for c in cs:
+            if c != k:
+                callers[c].add(k)
+    fam_of = {}
+    for f in families:
+        for r in f.roots:
+            fam_of.setdefault(r, set()).add(f)
+    roots = set(fam_of)
+
+    def external(g):
+        b = prog.bodies[g]
+        return b.get("vis") == "pub" and b["def_kind"] in ("Fn", "AssocFn")
+    dead = set()
+    changed = True
+    while changed:
+        changed = False
+        for g in prog.bodies:
+            if g in roots or g in dead or external(g):
+                continue
+            cs = callers[g]
+            if not cs:
+                dead.add(g)
+                changed = True
+                continue
+            fams = set()
+            good = True
+            for c in cs:
+                if c in dead:
+                    continue
+                fc = fam_of.get(c)
+                if not fc or any(g in f.stubbed for f in fc):
+                    good = False
+                    break
+                fams |= fc
+            if good and fam_of.get(g) != fams and (fams or all(c in dead for c in cs)):
+                if not fams:
+                    dead.add(g)
+                else:
+                    fam_of[g] = fams
+                changed = True
+    return fam_of, dead
 
 
 def check(ctx, rep):
@@ -22,9 +89,10 @@ def check(ctx, rep):
                               "discharged by exactly one named rule")
     discharged = {}
 
-    # ---------------- evidence gathered by interpretation
+    # ---------------- evidence gathered by interpretation: one family of roots per table
     env = intervals.Env(prog)
-    visited_add = visited_add_sites(prog, rep)
+    families = []
+    families.append(desugar_family(prog, rep))
     dif_rows = intervals.table_op(prog, env, "difference", variants=("lt", "cmp"))
     dif_panics = [r for r in dif_rows if r["status"] == "panic"]
     dif_inconc = [r for r in dif_rows if "inconclusive" in r]
@@ -32,67 +100,52 @@ def check(ctx, rep):
         rep.inconc("D-DIFF: " + r["inconclusive"][0], r["inconclusive"][1])
     for r in dif_rows:
         rep.path(("T-DIF", r["sig"]))
-    sat_ok = unreachable_arms(prog, env, rep)
-    any_ok = range_any(prog, rep)
-    entry = entry_points(prog, rep)
-    partial = E.stream_is_partial(prog)
+    for r in dif_panics[:50]:
+        bad = sorted(set(c[0] for c in r["cells"] if not c[2]))
+        if bad:
+            rep.fail("D-DIFF", "range::Bound::cmp|D-DIFF|cell=%s" % bad[0],
+                     "BoundSet::difference reaches a panic: %s" % r["key"], where=r.get("panic_where"), example=r["example"])
+        else:
+            rep.fail("D-DIFF", "range::BoundSet::difference|D-DIFF|%s" % r["key"],
+                     "BoundSet::difference reaches a panic (unwrap() on None)", where=r.get("panic_where"), example=r["example"])
+    families.append(Family("difference", "D-DIFF", "no row of the difference table (all shapes x weak orders) reaches a panic",
+                           ["range::BoundSet::difference"],
+                           False if dif_panics else (None if dif_inconc else True), [r["cov"] for r in dif_rows if "cov" in r],
+                           why_bad="the difference table reaches a panic"))
+    families.extend(unreachable_arms(prog, env, rep))
+    families.append(range_any(prog, rep))
+    entry, entry_fams = entry_points(prog, rep)
+    families.extend(entry_fams)
+    if all(entry.get(k) == "ok" for k in E_ENTRIES):
+        families.append(location_family(ctx, prog, rep))
+    elif "inconclusive" in entry.values():
+        families.append(Family("location", "D-LOC", "", ["SemverError::location"], None))
+    signed = [k for k in prog.bodies if FROM_SIGNED.match(k)]
+    families.append(Family("from-signed", "D-PRE", "debug_assert on a negative component: outside the input domain of the "
+                           "property (precondition)", signed, True, kinds=("panic_fmt",)))
+    fam_of, dead = family_membership(prog, families)
 
     for s in sites:
         owner, kind = s["owner"], s["kind"]
         where = prog.span_str(s["span"])
-        rule = None
-        why = None
-        if owner.startswith("SemverError::location"):
-            if "inconclusive" in (entry.get("Version::parse"), entry.get("range::Range::parse")):
-                continue
-            if entry.get("Version::parse") == "ok" and entry.get("range::Range::parse") == "ok":
-                lt = location_evidence(ctx, prog, rep)
-                if lt is None:
-                    continue
-                if lt:
-                    rule, why = "D-LOC", ("no (text, offset) class of the location() table reaches a panic; offsets are 0, len or a "
-                                          "stream position of the caller's string (C17 E2), hence <= len and on a char boundary")
-        elif kind == "panic_fmt" and owner in ("range::BoundSet::satisfies", "<range::BoundSet as std::fmt::Display>::fmt"):
-            if sat_ok.get(owner) is None:
-                continue        # the supporting table was inconclusive (already reported as such)
-            if sat_ok.get(owner):
-                rule, why = "D-INV", "unreachable! arm: dead for every (Lower, Upper) shaped BoundSet (INV-LU); no abstract case reaches it"
-        elif kind == "unwrap" and owner == "range::Range::any":
-            if any_ok:
-                rule, why = "D-NEW", "BoundSet::new(Lower(Unbounded), Upper(Unbounded)) is Some"
-        elif kind == "unwrap" and owner == "range::BoundSet::difference":
-            if not dif_panics and not dif_inconc:
-                rule, why = "D-DIFF", "no row of the difference table (all shapes x weak orders) reaches unwrap with None"
-            else:
-                for r in dif_panics[:50]:
-                    bad = sorted(set(c[0] for c in r["cells"] if not c[2]))
-                    if bad:
-                        rep.fail("D-DIFF", "range::Bound::cmp|D-DIFF|cell=%s" % bad[0],
-                                 "BoundSet::difference reaches unwrap() on None: %s" % r["key"], where=r.get("panic_where"), example=r["example"])
-                    else:
-                        rep.fail("D-DIFF", "range::BoundSet::difference|D-DIFF|%s" % r["key"],
-                                 "BoundSet::difference reaches unwrap() on None", where=r.get("panic_where"), example=r["example"])
-                continue
-        elif kind == "assert" and s["msg"] == "Overflow" and "Add" in s["detail"]:
-            if DESUGAR_OWNERS.match(owner):
-                if (owner, s["bb"]) in visited_add:
-                    rule, why = "D-NUM", "operand is a component parsed by number() (<= MAX_SAFE_INTEGER) plus the constant 1"
-                else:
-                    why = "this `+` is not reached with a parsed component and the constant 1 in any cell of the desugaring table"
-            elif stored_component_plus_one(prog, owner, s):
-                rule, why = "D-NUM-STORED", "operand is a component of a Version stored in a Range (INV-NUM: <= MAX_SAFE_INTEGER + 1) plus 1"
-        elif kind == "assert" and s["msg"] == "Overflow" and "Sub" in s["detail"] and owner in E_ENTRIES:
-            dead = flow.errmode_incomplete_dead_blocks(prog, prog.bodies[owner])
-            if s["bb"] in dead and not partial:
-                rule, why = "D-PARTIAL", "only reachable through ErrMode::Incomplete, which winnow raises for Partial streams only"
-            elif entry.get(owner) == "inconclusive":
-                continue
-            elif entry.get(owner) == "ok":
-                rule, why = "D-PTR", "pointer difference between the error position and the start of the caller's string (same buffer, later position)"
-            else:
-                why = "the subtraction is not a (position - start of the caller's string) difference: %s" % entry.get(owner)
-        elif kind == "panic_fmt" and FROM_SIGNED.match(owner):
-            rule, why = "D-PRE", "debug_assert on a negative component: outside the input domain of the property (precondition)"
+        rule = why = None
+        fams = fam_of.get(owner)
+        if owner in dead:
+            rule, why = "D-DEAD", "the enclosing private function is not called from anywhere in the crate"
+        elif fams:
+            fams = [f for f in fams if f.kinds is None or kind in f.kinds]
+            if fams and any(f.verdict is None for f in fams):
+                continue          # the supporting table was inconclusive (already reported as such)
+            if fams and all(f.verdict for f in fams):
+                f = sorted(fams, key=lambda f: f.name)[0]
+                rule, why = f.rule, f.why
+                if owner not in f.roots:
+                    why += " (helper reached only from %s)" % ", ".join(sorted(f.roots))[:160]
+            elif fams:
+                why = "; ".join(f.why_bad or ("the %s table does not hold" % f.name) for f in fams if f.verdict is False)
+        if rule is None and kind == "assert" and s["msg"] == "Overflow" and "Add" in s["detail"] and version_component_plus_one(prog, s):
+            rule, why = "D-NUM-STORED", ("operand is a numeric component of a Version (the property's domain and INV-NUM bound it by "
+                                         "MAX_SAFE_INTEGER + 1) plus 1")
         if rule is None and kind == "assert" and s["msg"] == "Overflow" and const_arith_is_safe(prog, s):
             rule, why = "D-CONST", "arithmetic on two constants that does not overflow"
         if rule is None:
@@ -104,7 +157,9 @@ def check(ctx, rep):
     for rule, lst in sorted(discharged.items()):
         rep.notes.append("%s discharges %d sites" % (rule, len(lst)))
         rep.sample({"rule": rule, "sites": len(lst), "first": lst[0]})
-    rep.analysed_item("%d panic-capable sites in %d bodies" % (len(sites), len(prog.bodies)))
+    helpers = sorted(g for g, fs in fam_of.items() if not any(g in f.roots for f in fs))
+    rep.analysed_item("%d panic-capable sites in %d bodies; %d table families, %d helper bodies covered through the call graph" % (
+        len(sites), len(prog.bodies), len(families), len(helpers)))
     progress(rep, prog)
     termination(rep, prog)
 
@@ -133,23 +188,20 @@ def const_arith_is_safe(prog, s):
     return False
 
 
-def stored_component_plus_one(prog, owner, s):
-    """`x.field + 1` where x is a local of type Version inside a method of BoundSet / Range (its versions are stored
-    range components, bounded by INV-NUM)"""
-    m = re.search(r"Overflow\(Add, copy \(_(\d+)\.(\d+): u64\), const 1_u64\)", s["detail"])
-    if not m or not (owner.startswith("range::Range::") or owner.startswith("range::BoundSet::")):
+def version_component_plus_one(prog, s):
+    """`x.field + 1` where x is a local of type Version (or a reference to one)"""
+    m = re.search(r"Overflow\(Add, (?:copy|move) \((?:\*)?_(\d+)\.(\d+): u64\), const 1_u64\)", s["detail"])
+    if not m:
         return False
-    body = prog.bodies[owner]
-    return prog.ty_str(body["locals"][int(m.group(1))]) == "Version"
+    body = prog.bodies[s["owner"]]
+    return prog.ty_str(body["locals"][int(m.group(1))]).lstrip("&").replace("mut ", "") == "Version"
 
 
 _LOC = {}
 
 
-def location_evidence(ctx, prog, rep):
-    """True: no panic in the location() table; False: some class panics; None: inconclusive (reported)"""
-    if "v" in _LOC:
-        return _LOC["v"]
+def location_family(ctx, prog, rep):
+    """no (text, offset) class of the location() table reaches a panic"""
     from .. import location
     rows = location.table(prog, 4)
     v = True
@@ -165,65 +217,77 @@ def location_evidence(ctx, prog, rep):
             v = False
             break
     rep.analysed_item("SemverError::location interpreted on %d (text, offset) classes for reachability of its panic sites" % len(rows))
-    _LOC["v"] = v
-    return v
+    return Family("location", "D-LOC", "no (text, offset) class of the location() table reaches a panic; offsets are 0, len or a "
+                  "stream position of the caller's string (C17 E2), hence <= len and on a char boundary",
+                  ["SemverError::location"], v, [r["cov"] for r in rows if "cov" in r], why_bad="location() panics for a valid offset")
 
 
-def loc_rule(s):
-    """frozen instances of SemverError::location (confirmed by reading; conditional on the offset provenance rule
-    of C17, which the caller has re-checked): offset <= len and on a char boundary."""
-    d = s["detail"]
-    if s["kind"] == "index" and "RangeTo<usize>" in d and ("for [u8]" in d or "for [T]" in d):
-        return "D-LOC", "bytes[..offset]: offset <= len (E2)"
-    if s["kind"] == "index" and "String" in d and "RangeFrom<usize>" in d:
-        return "D-LOC", "input[line_begin..] / input[offset..]: 0, one past a newline, or the offset itself (char boundaries by E2)"
-    if s["kind"] == "assert" and "Sub" in d:
-        return "D-LOC", "offset - pos with pos < offset (position in a prefix of length offset) / pointer difference inside one buffer"
-    return None, None
-
-
-def visited_add_sites(prog, rep):
-    """(owner, bb) of every `+` executed in the desugaring tables with an integer token and a small constant"""
-    visited = set()
+def desugar_family(prog, rep):
+    """the desugaring closures and the hyphen parser, run on every cell of the C01 tables (all raw partial shapes; numeric
+    components are tokens bounded by MAX_SAFE_INTEGER, the interpreter admits only `token + small constant` on them)"""
+    from ..interp import explore
     g, _ = gram.extract(prog)
     ex = D.Extract(prog)
-    import sys
+    ex.may_fail = True
+    roots, cov = [], []
+    verdict = True
 
-    def collect(it):
+    def one(thunk, root, what):
+        for _cx, _ in explore(lambda cx: one_outcome(thunk, root, what, cx), limit=64):
+            pass
+
+    def one_outcome(thunk, root, what, cx):
+        nonlocal verdict
+        from ..report import coverage
+        try:
+            _, _, it = thunk(cx)
+        except Inconclusive as e:
+            if verdict is not False:
+                verdict = None
+            rep.inconc("D-NUM %s: %s" % (what, e.reason), e.where)
+            return
+        except Panic as p:
+            verdict = False
+            rep.fail("D-NUM", "%s|D-NUM|%s" % (root, p.kind), "the desugaring reaches a panic for %s%s: %s" % (
+                what, " when BoundSet::new answers None" if 1 in cx.decisions else "", p))
+            return
+        cov.append(coverage(it))
         for o in it.obligations:
-            if o[0] == "add" and isinstance(o[2], Tok) and o[2].kind == "I" and o[3] == 1 and len(o) > 4:
-                visited.add(o[4])
-    forms = []
+            if o[0] == "add" and not (isinstance(o[2], Tok) and o[2].kind == "I" and isinstance(o[3], int) and 0 <= o[3] <= 16):
+                verdict = False
+                rep.fail("D-NUM", "%s|D-NUM|add" % root, "`+` on operands other than a parsed component and a small constant: %r + %r" % (o[2], o[3]))
+        rep.path(("desugar", path_sig(it)))
     for fn, envs in (("range::primitive", [{"op": o} for o in ("GreaterThanEquals", "GreaterThan", "Exact", "LessThanEquals", "LessThan")]),
                      ("range::partial", [{}]), ("range::tilde", [{"gt": False}, {"gt": True}]), ("range::caret", [{}])):
         clo = D.top_map_closure(g, fn)
         if clo is None:
             continue
+        roots.append(clo.key)
         for env in envs:
             for shape in D.shapes():
-                try:
-                    _, _, it = ex.run_closure(clo, dict(env, shape=shape))
-                    collect(it)
-                    rep.path(("desugar", path_sig(it)))
-                except (Inconclusive, Panic):
-                    pass
-    if prog.has_body("range::hyphen::parser"):
+                one(lambda cx, env=env, shape=shape: ex.run_closure(clo, dict(env, shape=shape), ctx=cx), clo.key, "%s %s" % (env, shape))
+                if verdict is None:
+                    break
+    hy = "range::hyphen::parser"
+    if prog.has_body(hy):
+        roots.append(hy)
         for lo in [None] + list(D.shapes()):
             for up in D.shapes():
-                try:
-                    _, _, it = ex.run_hyphen("range::hyphen::parser", lo, up)
-                    collect(it)
-                except (Inconclusive, Panic):
-                    pass
-    return visited
+                one(lambda cx, lo=lo, up=up: ex.run_hyphen(hy, lo, up, ctx=cx), hy, "hyphen %s - %s" % (lo, up))
+            if verdict is None:
+                break
+    return Family("desugar", "D-NUM", "operand is a component parsed by number() (<= MAX_SAFE_INTEGER) plus a small constant; no cell "
+                  "of the desugaring tables reaches a panic", roots, verdict, cov, why_bad="a cell of the desugaring table reaches a panic")
 
 
 def unreachable_arms(prog, env, rep):
     """no (Lower, Upper) shaped BoundSet reaches the unreachable! arms of satisfies / Display"""
-    res = {}
+    res = []
+    from ..report import coverage
     for key in ("range::BoundSet::satisfies", "<range::BoundSet as std::fmt::Display>::fmt"):
         good = True
         n = 0
+        cov = []
         for lo in intervals.SHAPES:
             for up in intervals.SHAPES:
                 names = [x for x, s in (("lo", lo), ("up", up)) if s != "U"] + ["v"]
@@ -240,6 +304,7 @@ def unreachable_arms(prog, env, rep):
                         st, val = run.call(key, [Ptr(Cell(bs)), Ptr(Cell(Formatter()))])
                     n += 1
                     rep.path((key, path_sig(run.interp)))
+                    cov.append(coverage(run.interp))
                     if good is None and st != "panic":
                         continue
                     if st == "panic":
@@ -248,27 +313,34 @@ def unreachable_arms(prog, env, rep):
                     elif st == "inconclusive":
                         good = None if good is not False else False
                         rep.inconc("D-INV %s: %s" % (key, val.reason), val.where)
-        res[key] = good
+        res.append(Family(key, "D-INV", "unreachable! arm: dead for every (Lower, Upper) shaped BoundSet (INV-LU); no abstract "
+                          "case reaches a panic", [key], good, cov, why_bad="a (Lower, Upper) shaped BoundSet reaches a panic"))
         rep.analysed_item("%s interpreted on %d (shape, order) cases for reachability of its unreachable! arms" % (key, n))
     return res
 
 
 def range_any(prog, rep):
+    from ..report import coverage
     it = Interp(prog, Policy(), overrides=dict(intervals.LEVEL1))
+    v = False
     try:
         r = it.call_body("range::Range::any", [])
-        return isinstance(r, Adt) and r.name == "range::Range"
+        v = isinstance(r, Adt) and r.name == "range::Range"
     except Panic as p:
         rep.fail("D-NEW", "range::Range::any|D-NEW|panic", "Range::any() panics: %s" % p)
     except Inconclusive as e:
         rep.inconc("D-NEW: " + e.reason, e.where)
-    return False
+        v = None
+    return Family("any", "D-NEW", "Range::any() is interpreted and returns a Range (its constructor call yields Some)",
+                  ["range::Range::any"], v, [coverage(it)], why_bad="Range::any() panics")
 
 
 def entry_points(prog, rep):
     """no arithmetic panic on any live path of the entry points, and every pointer difference is
     (error position) - (start of the caller's string)"""
     out = {}
+    fams = []
+    from ..report import coverage
     partial = E.stream_is_partial(prog)
     for key in E_ENTRIES:
         if not prog.has_body(key):
@@ -281,6 +353,7 @@ def entry_points(prog, rep):
             out[key] = "inconclusive"
             continue
         verdict = "ok"
+        cov = [coverage(r["interp"]) for r in rows if r.get("interp") is not None]
         for r in rows:
             rep.path(("entry", r["sig"]))
             if r["status"] == "panic":
@@ -293,8 +366,18 @@ def entry_points(prog, rep):
                 if o[0] == "ptrdiff" and (o[2], o[3]) != ("ptr(errpos)", "ptr(caller)"):
                     verdict = "pointer difference %s - %s" % (o[2], o[3])
         out[key] = verdict
+        fams.append(Family(key, "D-PTR", "no path of the entry table reaches a panic: the subtraction is the pointer difference between "
+                           "the error position and the start of the caller's string (same buffer, later position); the "
+                           "ErrMode::Incomplete arm is dead for a complete stream",
+                           [key], True if verdict == "ok" else (None if verdict == "inconclusive" else False), cov,
+                           why_bad="the subtraction is not a (position - start of the caller's string) difference: %s" % verdict))
         rep.analysed_item("%s: %d paths examined for arithmetic panics" % (key, len(rows)))
-    return out
+    for key in E_ENTRIES:
+        if out.get(key) in ("missing",):
+            pass
+        elif out.get(key) == "inconclusive" and not any(key in f.roots for f in fams):
+            fams.append(Family(key, "D-PTR", "", [key], None))
+    return out, fams
 
 
 def progress(rep, prog):
